@@ -56,8 +56,8 @@ CLAIMED = {
             'measurement-based == unbalanced; inputs unmodified; prec@cov == I (symbolic inverse, <=2|3 channels); v\'Sv proved a sum of squares; '
             'Ledoit-Wolf / Schaefer-Strimmer estimates proved equal to lambda*target+(1-lambda)*S with the reference lambda on every branch, '
             'lambda in [0,1] on a solver-checked abstraction.',
-            'shrinkage estimators only for residual rank <=2 (rank 3: z3 unknown) and not through cov_from_measurements; precision of the '
-            'Ledoit-Wolf estimate outside (z3 unknown); real arithmetic; branch feasibility answered unknown is explored anyway (sound)'),
+            'shrinkage estimators only for residual rank <=2 (rank 3: z3 unknown) and not through cov_from_measurements; precisions of the '
+            'two shrinkage estimates and 3x3 symbolic precisions outside (z3 unknown); real arithmetic; branch feasibility answered unknown is explored anyway (sound)'),
     'C11': ('DESIGN.md 4/C11',
             'Every sequence of <=2|3 dataset operations (split/subset by observation, channel, time; sort_by; split+merge; odd-even and '
             'nested splits; per-condition averages; measurement tensor; DataFrame round trip; time binning; time-as-observations/channels; '
